@@ -230,6 +230,15 @@ CanAdd(a, b) == /\ TRank(a) = TRank(b)
                 /\ \A i \in 1..TRank(a) : LegEqual(a.legs[i], b.legs[i])
                 /\ a.qtotal = b.qtotal
 OpAddScaled(a, z, b) == [a EXCEPT !.val = TAdd(a.val, TScale(z, b.val))]
+\* same, but `b` carries the same (complete, distinct) labels in a different order: it is transposed first
+AllLabeled(t) == \A i \in 1..TRank(t) : t.labels[i] # NoneLabel
+LabelPerm(a, b) == [i \in 1..TRank(a) |-> CHOOSE j \in 1..TRank(b) : b.labels[j] = a.labels[i]]
+CanAddByLabels(a, b) ==
+    /\ TRank(a) = TRank(b) /\ TRank(a) >= 2 /\ AllLabeled(a) /\ AllLabeled(b)
+    /\ {a.labels[i] : i \in 1..TRank(a)} = {b.labels[i] : i \in 1..TRank(b)}
+    /\ a.labels # b.labels
+    /\ CanAdd(a, OpTranspose(b, LabelPerm(a, b)))
+OpAddByLabels(a, z, b) == OpAddScaled(a, z, OpTranspose(b, LabelPerm(a, b)))
 OpScale(t, z) == [t EXCEPT !.val = TScale(z, t.val)]
 
 \* combine_legs(groups, qconj=qcs [, new_axes]): several pipes at once.
